@@ -83,14 +83,95 @@ func decodeIndep(coding string, b []byte) ([]byte, error) {
 	return nil, errors.New("unknown coding " + coding)
 }
 
+// the Write* decompression counterparts
+func writeDecoded(coding string, w io.Writer, b []byte) (int, error) {
+	switch coding {
+	case "gzip":
+		return fasthttp.WriteGunzip(w, b)
+	case "deflate":
+		return fasthttp.WriteInflate(w, b)
+	case "br":
+		return fasthttp.WriteUnbrotli(w, b)
+	case "zstd":
+		return fasthttp.WriteUnzstd(w, b)
+	}
+	return 0, errors.New("unknown coding " + coding)
+}
+
+// a client-side Response holding the coded body: Body<Decoder>() and BodyUncompressed()
+func decodeViaResponse(coding string, b []byte) ([]byte, []byte, error) {
+	var resp fasthttp.Response
+	resp.Header.SetContentEncoding(coding)
+	resp.SetBody(b)
+	u, err := resp.BodyUncompressed()
+	if err != nil {
+		return nil, nil, err
+	}
+	var o []byte
+	switch coding {
+	case "gzip":
+		o, err = resp.BodyGunzip()
+	case "deflate":
+		o, err = resp.BodyInflate()
+	case "br":
+		o, err = resp.BodyUnbrotli()
+	default:
+		o, err = resp.BodyUnzstd()
+	}
+	if err != nil {
+		return nil, nil, err
+	}
+	// the same helpers on a server-side Request carrying a coded body
+	var req fasthttp.Request
+	req.Header.SetContentEncoding(coding)
+	req.SetBody(b)
+	ru, err := req.BodyUncompressed()
+	if err != nil || !bytes.Equal(ru, u) {
+		return nil, nil, errors.New("Request.BodyUncompressed disagrees")
+	}
+	return u, o, nil
+}
+
+func appendDefault(coding string, dst, src []byte) []byte {
+	switch coding {
+	case "gzip":
+		return fasthttp.AppendGzipBytes(dst, src)
+	case "deflate":
+		return fasthttp.AppendDeflateBytes(dst, src)
+	case "br":
+		return fasthttp.AppendBrotliBytes(dst, src)
+	}
+	return fasthttp.AppendZstdBytes(dst, src)
+}
+
+func writeDefault(coding string, w io.Writer, src []byte) (int, error) {
+	switch coding {
+	case "gzip":
+		return fasthttp.WriteGzip(w, src)
+	case "deflate":
+		return fasthttp.WriteDeflate(w, src)
+	case "br":
+		return fasthttp.WriteBrotli(w, src)
+	}
+	return fasthttp.WriteZstdLevel(w, src, fasthttp.CompressZstdDefault) // there is no WriteZstd
+}
+
 func decodeErr(coding string, b []byte) error {
 	_, err := decodeIndep(coding, b)
 	return err
 }
 
-// decodesTo: both decoders succeed and give exactly want
+// decodesTo: the independent decoder and every decompression counterpart of fasthttp succeed and give exactly want
 func decodesTo(coding string, b, want []byte) bool {
 	o1, e1 := decodeIndep(coding, b)
 	o2, e2 := decodeOwn(coding, b)
-	return e1 == nil && e2 == nil && bytes.Equal(o1, want) && bytes.Equal(o2, want)
+	if e1 != nil || e2 != nil || !bytes.Equal(o1, want) || !bytes.Equal(o2, want) {
+		return false
+	}
+	var sink bytes.Buffer
+	if _, err := writeDecoded(coding, &sink, b); err != nil || !bytes.Equal(sink.Bytes(), want) {
+		return false
+	}
+	u, o, err := decodeViaResponse(coding, b)
+	return err == nil && bytes.Equal(u, want) && bytes.Equal(o, want)
 }
